@@ -279,25 +279,43 @@ class BaseSPCError(BaseSPC):
         pass
 
 
+def _control_limit_100(p: float) -> float:
+    return (
+        2.76
+        - 6.23 * p
+        + 18.12 * np.power(p, 3)
+        - 312.45 * np.power(p, 5)
+        + 1002.18 * np.power(p, 7)
+    )
+
+
+def _control_limit_400(p: float) -> float:
+    return (
+        3.97
+        - 6.56 * p
+        + 48.73 * np.power(p, 3)
+        - 330.13 * np.power(p, 5)
+        + 848.18 * np.power(p, 7)
+    )
+
+
+def _control_limit_1000(p: float) -> float:
+    return (
+        1.17
+        + 7.56 * p
+        - 21.24 * np.power(p, 3)
+        + 112.12 * np.power(p, 5)
+        - 987.23 * np.power(p, 7)
+    )
+
+
 class BaseECDDConfig(BaseConceptDriftStreamingConfig):
     """Class representing a ECDD configuration class."""
 
     average_run_length_map = {
-        100: lambda p: 2.76
-        - 6.23 * p
-        + 18.12 * np.power(p, 3)
-        - 312.45 * np.power(p, 5)
-        + 1002.18 * np.power(p, 7),
-        400: lambda p: 3.97
-        - 6.56 * p
-        + 48.73 * np.power(p, 3)
-        - 330.13 * np.power(p, 5)
-        + 848.18 * np.power(p, 7),
-        1000: lambda p: 1.17
-        + 7.56 * p
-        - 21.24 * np.power(p, 3)
-        + 112.12 * np.power(p, 5)
-        - 987.23 * np.power(p, 7),
+        100: _control_limit_100,
+        400: _control_limit_400,
+        1000: _control_limit_1000,
     }
 
     def __init__(
